@@ -692,3 +692,68 @@ def r19(ctx, P):
                    'realloc succeeded (the old block may have been freed) but %s keeps the old pointer on a path to a return or to an element access: use after free when a second allocation of the same step fails' % show(a0),
                    w.render() if w else None)
     ctx.floor('realloc results assigned to locals', n, 2)
+
+
+# --------------------------------------------------------------------------- C10.20
+
+def r20(ctx, P):
+    """bisection probes stay inside the valid part of the array"""
+    from ..graph import loops
+    n = 0
+    for fn in P.all_functions():
+        lp = loops(fn)
+        for h, body in lp.items():
+            hb = fn.blocks[h]
+            c = strip_casts(hb.cond) if hb.cond is not None else None
+            if c is None or c.get('op') != 'bin' or c['o'] not in ('<', '<='):
+                continue
+            lo, hi = strip_casts(c['k'][0]), strip_casts(c['k'][1])
+            if lo.get('op') != 'ref' or hi.get('op') != 'ref' or lo.get('rk') != 'local' or hi.get('rk') != 'local':
+                continue
+            # mid = (lo + hi [+ 1]) / 2 inside the loop
+            mid = None
+            for ev in [e_ for bid in body for e_ in fn.blocks[bid].events if e_.k in ('store', 'decl')]:
+                lhs, rhs, o = ev.store_parts()
+                r0 = strip_casts(rhs) if rhs is not None else None
+                if r0 is None or r0.get('op') != 'bin' or r0['o'] not in ('/', '>>') or const_of(r0['k'][1]) not in (2, 1):
+                    continue
+                names = [x.get('name') for x in walk(r0['k'][0]) if x.get('op') == 'ref']
+                if lo['name'] in names and hi['name'] in names:
+                    consts = [const_of(x) for x in walk(r0['k'][0]) if x.get('op') == 'lit' or (const_of(x) is not None and x.get('op') not in ('bin',))]
+                    up = any(v == 1 for v in consts)
+                    mid = (strip_casts(lhs).get('name'), up, ev)
+            if mid is None:
+                continue
+            probes = []
+            for bid in body:
+                b = fn.blocks[bid]
+                for e in [ev.e for ev in b.events if ev.e is not None] + ([b.cond] if b.cond is not None else []):
+                    for nd in walk(e):
+                        if nd.get('op') == 'sub' and strip_casts(nd['k'][1]).get('op') == 'ref' and strip_casts(nd['k'][1]).get('name') == mid[0]:
+                            probes.append(nd)
+            if not probes:
+                continue
+            n += 1
+            ctx.saw(fn, 1)
+            strict = c['o'] == '<'
+            # with lo < hi: rounding up gives lo < mid <= hi, rounding down gives lo <= mid < hi
+            reach_hi = mid[1] or not strict
+            bad = []
+            for ev in fn.stores():
+                lhs, rhs, o = ev.store_parts()
+                l0 = strip_casts(lhs)
+                if l0.get('op') != 'ref' or l0.get('name') != hi['name'] or rhs is None:
+                    continue
+                if ev.block.id in body:
+                    continue          # hi = mid / mid - 1: never grows
+                r0 = strip_casts(rhs)
+                # initial upper bound: L (a length) or L - c
+                if r0.get('op') == 'bin' and r0['o'] == '-' and (const_of(r0['k'][1]) or 0) >= 1:
+                    continue
+                if const_of(r0) is not None:
+                    continue
+                if reach_hi:
+                    bad.append('%s starts at %s and the probe %s[%s] can reach it: element %s is one past the valid entries' % (hi['name'], show(r0)[:40], show(strip_casts(probes[0]['k'][0]))[:10], mid[0], show(r0)[:40]))
+            ctx.ob('C10.20', not bad, fn.name, 'bisection over %s stays below its length' % show(strip_casts(probes[0]['k'][0]))[:20], '%s:%d' % (fn.file, hb.line),
+                   'probe index is at most the initial upper bound, which is length - 1 (or the probe never reaches the upper bound)' if not bad else bad[0])
+    ctx.floor('bisection loops', n, 1)
